@@ -68,6 +68,10 @@ PROC_S, PROC_CLEAR = "com.myapp.secret.proc", "org.other.proc"
 TOPIC_A, TOPIC_B = "com.myapp.topic1", "com.myapp.topic2"
 TOPIC_S, TOPIC_CLEAR = "com.myapp.secret.topic", "org.other.topic"
 ERR_A, ERR_B = "com.myapp.error1", "com.myapp.error2"
+# URIs that are a string prefix / a string extension of the *_A URIs (for envelope swaps)
+PROC_P, PROC_X = "com.myapp.proc", "com.myapp.proc11"
+TOPIC_P, TOPIC_X = "com.myapp.topic", "com.myapp.topic11"
+ERR_P, ERR_X = "com.myapp.error", "com.myapp.error11"
 ERR_S, ERR_CLEAR = "com.myapp.secret.error", "org.other.error"
 
 MARK = "Zq7MARK"
@@ -200,7 +204,7 @@ def main(ctx):
             "nonce_owned", "encrypted_payload_examined", "secrecy_messages_checked",
             "clear_by_config", "tamper_execs", "tamper_detected", "after_fault_clean_ok",
             "handler_invoked_positive", "structural_detected", "fault:field", "fault:trunc-end",
-            "fault:defined-error-class"]
+            "fault:defined-error-class", "swap_between_prefix_related_uris"]
     for d in DIRECTIONS:
         need += ["recovered:" + d, "tamper_detected:" + d, "swap_detected:" + d,
                  "wrongkey_detected:" + d, "unencryptable:" + d]
@@ -390,6 +394,10 @@ class Scenario:
             # a URI under the other key, for cross-key swaps
             extra = PROC_S if direction != "publish" else TOPIC_S
             (regs if direction != "publish" else subs).append(extra)
+        if uri == PROC_A:
+            regs += [PROC_P, PROC_X]
+        elif uri == TOPIC_A:
+            subs += [TOPIC_P, TOPIC_X]
         for p in regs:
             r = self.b.do(self.resp.register(self._endpoint(p), p,
                                              options=RegisterOptions(details_arg="details")))
@@ -717,7 +725,7 @@ def run_fault(layout, d, ser, fault, stats, uri=None, err_uri=None):
         # the caller has registered exception classes for the error URIs in play: a ciphertext that
         # fails authentication must still surface as an encryption error, not as such a class
         sc.defined = {}
-        for u in (err_uri, ERR_B, ERR_S):
+        for u in (err_uri, ERR_B, ERR_S, ERR_P, ERR_X):
             cls = type("Defined_" + u.split(".")[-1], (_DefinedError,), {})
             sc.orig.define(cls, u)
             sc.defined[u] = cls
@@ -820,6 +828,13 @@ def job(a):
                 faults.append({"type": "swap-uri", "to": TOPIC_S})
             else:
                 faults.append({"type": "swap-uri", "to_err": ERR_S})
+        # swaps between URIs where one is a string prefix of the other (same key)
+        if d in ("call", "yield"):
+            faults += [{"type": "swap-uri", "to": PROC_P, "rel": "prefix"}, {"type": "swap-uri", "to": PROC_X, "rel": "extension"}]
+        elif d == "publish":
+            faults += [{"type": "swap-uri", "to": TOPIC_P, "rel": "prefix"}, {"type": "swap-uri", "to": TOPIC_X, "rel": "extension"}]
+        else:
+            faults += [{"type": "swap-uri", "to_err": ERR_P, "rel": "prefix"}, {"type": "swap-uri", "to_err": ERR_X, "rel": "extension"}]
         faults += [{"type": "wrongkey", "variant": v} for v in WRONGKEY[d]]
         if d == "error":
             faults += [dict(f, define=True) for f in faults
@@ -839,6 +854,9 @@ def job(a):
                 label = "wrongkey-" + fault["variant"]
             elif t == "field":
                 label = "field-" + fault["field"]
+            elif t == "swap-uri" and fault.get("rel"):
+                label = "swap-uri-" + fault["rel"]
+                st["swap_between_prefix_related_uris"] += 1
             elif t == "swap-uri" and (fault.get("to") or fault.get("to_err")):
                 label = "swap-uri-other-key"
             if not bad:
@@ -977,6 +995,9 @@ H_LAYOUTS = {
     "full/full@prefix": ("or", "or", "com.myapp."),
     "orig/full@prefix": ("o", "or", "com.myapp."),
     "full/full@deep": ("or", "or", "deep"),
+    # a default key AND a key for "com.myapp.": unset/set retire and re-install the prefix key only,
+    # the default key stays active throughout
+    "full/full@default+prefix": ("or", "or", "default+prefix"),
 }
 H_DEEP = ("com.myapp.vault.", "com.myapp.feed.", "com.myapp.hist.")
 
@@ -991,7 +1012,14 @@ def h_key(caps):
 
 
 def h_scopes(scope):
+    if scope == "default+prefix":
+        return ["", "com.myapp."]
     return [""] if scope == "default" else (list(H_DEEP) if scope == "deep" else [scope])
+
+
+def h_toggled(scope):
+    """the scopes the unset / set operations act on"""
+    return ["com.myapp."] if scope == "default+prefix" else h_scopes(scope)
 
 
 def h_covered(scope, uri):
@@ -1011,7 +1039,7 @@ class Hist:
         self.layout, self.ser = layout, ser
         ca, cb, self.scope = H_LAYOUTS[layout]
         self.caps = {"A": ca, "B": cb}
-        self.has_key = {"A": True, "B": True}          # model state: key currently installed
+        self.installed = {n: set(h_scopes(self.scope)) for n in ("A", "B")}   # model state: scopes with a key
         self.b = H.B2B(names=("A", "B"), ser=ser)
         self.sess = self.b.sessions
         self.rings = {}
@@ -1062,8 +1090,12 @@ class Hist:
         return handler
 
     # --- capability model -----------------------------------------------------
+    @property
+    def has_key(self):
+        return {n: bool(self.installed[n]) for n in ("A", "B")}
+
     def can(self, n, role, uri):
-        return self.has_key[n] and role in self.caps[n] and h_covered(self.scope, uri)
+        return role in self.caps[n] and any(uri.startswith(p) for p in self.installed[n])
 
     def apply(self, i, op):
         """-> (canonical observation, [(clause, detail)])"""
@@ -1073,9 +1105,9 @@ class Hist:
         kind, x, uri = op
         bad = []
         if kind in ("unset", "set"):
-            for sc in h_scopes(self.scope):
+            for sc in h_toggled(self.scope):
                 self.rings[x].set_key(sc, None if kind == "unset" else h_key(self.caps[x]))
-            self.has_key[x] = kind == "set"
+                (self.installed[x].discard if kind == "unset" else self.installed[x].add)(sc)
             return (kind,), bad
         y = "B" if x == "A" else "A"
         args = [MARK + "-a%d" % i, i]
